@@ -418,6 +418,21 @@ impl Mempool {
         for (_, transaction) in &self.transactions {
             self.routing_work_in_mempool += transaction.total_work_for_me;
         }
+
+        self.rebuild_utxo_map();
+    }
+
+    /// The input reservations always mirror the pooled transactions. They have to be rebuilt
+    /// whenever transactions leave the pool other than through a bundled block (confirmed or
+    /// invalidated by a block from a peer, re-added after a failed block), otherwise an output
+    /// stays reserved although nothing in the pool spends it.
+    pub fn rebuild_utxo_map(&mut self) {
+        self.utxo_map.clear();
+        for (_, transaction) in &self.transactions {
+            for input in transaction.from.iter() {
+                self.utxo_map.insert(input.utxoset_key, 1);
+            }
+        }
     }
 
     ///
